@@ -16,20 +16,21 @@ Spec: spec/MultiReg.tla (+ MC_C13, Trace_C13): registries with dict identity exp
 
 import json
 import random
+from concurrent.futures import ThreadPoolExecutor
 
-from common import MachineryFailure
+from common import NCPU, MachineryFailure
 
 TRACE_REGS = 3  # Trace_C13 / impl_c13 always carry 1 + 3 registry slots
 
 
 def _strip(e):
-    keep = ("op", "r", "r2", "new", "sym", "scale", "pfx", "str", "str2", "defs", "usys", "deep", "bypass", "fn", "warm")
+    keep = ("op", "r", "r2", "new", "sym", "scale", "pfx", "str", "str2", "defs", "usys", "deep", "bypass", "fn", "warm", "how")
     return {k: v for k, v in e.items() if k in keep}
 
 
 def _short(e):
     s = _strip(e)
-    txt = " ".join(f"{k}={s[k]}" for k in ("op", "fn", "r", "r2", "new", "sym", "str", "str2", "scale", "pfx", "defs", "usys", "deep", "bypass", "warm") if k in s)
+    txt = " ".join(f"{k}={s[k]}" for k in ("op", "fn", "how", "r", "r2", "new", "sym", "str", "str2", "scale", "pfx", "defs", "usys", "deep", "bypass", "warm") if k in s)
     return txt + " -> " + str(e.get("obs", {}).get("k", "")) + (":" + e["exc"] if e.get("exc") else "")
 
 
@@ -44,11 +45,19 @@ def _validate(ck, traces, label, stats):
     bad = [t for t in traces if "_error" in t]
     if bad:
         raise MachineryFailure("replay error: " + str(bad[0])[:1500])
-    CH = 2500
-    for off in range(0, len(traces), CH):
-        part = traces[off : off + CH]
+    nthreads = max(1, min(NCPU, 8))
+    CH = min(2500, max(400, -(-len(traces) // nthreads)))
+    parts = [(off, traces[off : off + CH]) for off in range(0, len(traces), CH)]
+
+    def one(item):
+        off, part = item
         path = ck.write_json(f"traces_{label}_{off}.json", part)
-        res = ck.tlc("Trace_C13", "Trace_C13_run", env={"TRACES": path}, workers=1, coverage=False, label=f"trace-validation {label}", timeout=1800)
+        return ck.tlc("Trace_C13", "Trace_C13_run", env={"TRACES": path}, workers=1, coverage=False, label=f"trace-validation {label}", timeout=1800)
+
+    # the chunks are independent linear behaviours: validate them concurrently, report in chunk order
+    with ThreadPoolExecutor(nthreads) as ex:
+        results = list(ex.map(one, parts))
+    for (off, part), res in zip(parts, results):
         expect = 1 + sum(len(t["ev"]) + 1 for t in part)
         if res.distinct != expect:
             raise MachineryFailure(f"trace validation consumed {res.distinct} states, expected {expect}")
@@ -72,7 +81,7 @@ def _validate(ck, traces, label, stats):
 def _nontrivial(h):
     """A history exercises C13 non-trivially when a second registry exists while something is done through
     another one (so the frame clause has something to protect) or the default registry is asked to change."""
-    return any(e["op"] in ("binop", "rebind") or (e["r"] == 0 and e["op"] in ("modify", "remove")) for e in h) or (
+    return any(e["op"] in ("binop", "rebind", "convert") or (e["r"] == 0 and e["op"] in ("modify", "remove")) for e in h) or (
         sum(1 for e in h if e["op"] in ("new", "lutalias", "lutcopy", "json", "deepcopy", "unpickle", "unitcopy")) >= 1 and len(h) >= 2
     )
 
@@ -85,8 +94,8 @@ def _model_verdicts(ck, res, label):
         ck.note({"model_counterexample": r["tag"], "history": [_short(e) for e in r["h"]]})
 
 
-SLIM = dict(DScales="{2}", AddScales="{2}", ModScales="{4}", ReadKeys='{"kfoo", "km"}', ReadProbes='{"kfoo", "kfoo/km"}', BinP='{"foo", "m"}', BinF='{"mul", "add"}', CopyP='{"kfoo"}')
-FULL = dict(DScales="{2, 4}", AddScales="{2, 4}", ModScales="{2, 4}", ReadKeys='{"foo", "kfoo", "m", "km"}', ReadProbes='{"foo", "kfoo", "m", "km", "foo*m", "kfoo/km"}', BinP='{"foo", "kfoo", "m"}', BinF='{"mul", "div", "add"}', CopyP='{"foo", "kfoo", "m"}')
+SLIM = dict(ConvHows='{"to"}', DPfx="{TRUE}", DScales="{2}", AddScales="{2}", ModScales="{4}", ReadKeys='{"kfoo", "km"}', ReadProbes='{"kfoo", "kfoo/km"}', BinP='{"foo", "m"}', BinF='{"mul", "add"}', CopyP='{"kfoo"}')
+FULL = dict(ConvHows='{"to", "in_units", "to_value", "convert_to_units"}', DPfx="{FALSE, TRUE}", DScales="{2, 4}", AddScales="{2, 4}", ModScales="{2, 4}", ReadKeys='{"foo", "kfoo", "m", "km"}', ReadProbes='{"foo", "kfoo", "m", "km", "foo*m", "kfoo/km"}', BinP='{"foo", "kfoo", "m"}', BinF='{"mul", "div", "add"}', CopyP='{"foo", "kfoo", "m"}')
 
 
 def _write_cfg(ck, name, MaxRegs=2, MaxLen=3, ExportLen=3, Mixed="TRUE", Namespaces="TRUE", Editing="TRUE", WarmSet="{FALSE}", export="state", alphabet=None):
@@ -145,54 +154,68 @@ def run(ck):
                 n += 1
         return n
 
-    # (1) exhaustive bounded state space (history hidden by VIEW; the kind of the last call stays visible), state cover
-    # routes x edits: the creation route of every registry is part of the state, no mixed operations
-    _write_cfg(ck, "MC_C13_routes", MaxRegs=2, MaxLen=3, ExportLen=3, Mixed="FALSE", alphabet=SLIM, export="state")
-    res = ck.tlc("MC_C13", "MC_C13_routes", workers=1, label="state space MaxRegs=2 MaxLen=3, creation routes visible, no mixed operations, slim alphabet, state cover export", required_actions=["Next"], timeout=3000)
-    n = take(res, "routes3-slim")
-    if ck.tier == "quick":
-        # mixed operations: creation route hidden, histories ending in a binary operation / re-binding
-        _write_cfg(ck, "MC_C13_mixed", MaxRegs=2, MaxLen=3, ExportLen=3, Namespaces="FALSE", alphabet=dict(SLIM, BinF='{"mul"}'), export="mixed")
-        res = ck.tlc("MC_C13", "MC_C13_mixed", workers=1, label="state space MaxRegs=2 MaxLen=3 with mixed operations, slim alphabet, cover of the states reached by a mixed operation", required_actions=["Next"], timeout=3000)
-        n += take(res, "mixed3-slim")
-        ck.cov["bound"] = [{"MaxRegs": 2, "MaxLen": 3, "alphabet": "slim", "mixed": False, "routes_visible": True}, {"MaxRegs": 2, "MaxLen": 3, "alphabet": "slim, mul only", "mixed": True, "routes_visible": False}]
+    quick = ck.tier == "quick"
+    LRU = dict(FULL, BinP='{"m"}', BinF='{"mul", "add"}', CopyP='{"m"}')
+    # (1) exhaustive bounded state spaces (history hidden by VIEW; kind of the last call and creation routes visible)
+    covers = [
+        # routes x edits: the creation route of every registry is part of the state, no mixed operations
+        ("routes3-slim", dict(MaxRegs=2, MaxLen=3, ExportLen=3, Mixed="FALSE", Namespaces=ck.q("FALSE", "TRUE"), alphabet=SLIM, export="state"),
+         "state space MaxRegs=2 MaxLen=3, creation routes visible, no mixed operations, slim alphabet, state cover export"),
+    ]
+    if quick:
+        # mixed operations: creation route hidden, histories ending in a binary operation / re-binding / conversion
+        covers.append(("mixed3-slim", dict(MaxRegs=2, MaxLen=3, ExportLen=3, Namespaces="FALSE", alphabet=dict(SLIM, BinF='{"mul"}'), export="mixed"),
+                       "state space MaxRegs=2 MaxLen=3 with mixed operations, slim alphabet, cover of the states reached by a mixed operation"))
+        ck.cov["bound"] = [{"MaxRegs": 2, "MaxLen": 3, "alphabet": "slim, no namespaces", "mixed": False, "routes_visible": True}, {"MaxRegs": 2, "MaxLen": 3, "alphabet": "slim, mul only", "mixed": True, "routes_visible": False}]
     else:
-        _write_cfg(ck, "MC_C13_full", MaxRegs=2, MaxLen=3, ExportLen=3, alphabet=FULL, export="state2")
-        res = ck.tlc("MC_C13", "MC_C13_full", workers=1, label="state space MaxRegs=2 MaxLen=3 full alphabet incl. mixed operations, state cover export", required_actions=["Next"], timeout=3000)
-        n += take(res, "cover3-full")
-        # warm lru memos: creations + binary operations only
-        _write_cfg(ck, "MC_C13_warm", MaxRegs=2, MaxLen=4, ExportLen=4, Namespaces="FALSE", Editing="FALSE", WarmSet="{FALSE, TRUE}", alphabet=dict(SLIM, BinP='{"m"}', CopyP='{"m"}'), export="mixed")
-        res = ck.tlc("MC_C13", "MC_C13_warm", workers=1, label="state space MaxRegs=2 MaxLen=4, creations + binary operations with warm/cold lru memos, cover of the states reached by a mixed operation", required_actions=["Next"], timeout=3000)
-        n += take(res, "cover4-warm")
-        ck.cov["bound"] = [{"MaxRegs": 2, "MaxLen": 3, "alphabet": "slim", "mixed": False, "routes_visible": True}, {"MaxRegs": 2, "MaxLen": 3, "alphabet": "full", "mixed": True, "routes_visible": False}, {"MaxRegs": 2, "MaxLen": 4, "alphabet": "creations + binary operations on m, warm/cold", "routes_visible": False}]
+        covers.append(("cover3-full", dict(MaxRegs=2, MaxLen=3, ExportLen=3, alphabet=FULL, export="state2"),
+                       "state space MaxRegs=2 MaxLen=3 full alphabet incl. mixed operations, state cover export"))
+        covers.append(("cover4-warm", dict(MaxRegs=2, MaxLen=4, ExportLen=4, Namespaces="FALSE", Editing="FALSE", WarmSet="{FALSE, TRUE}", alphabet=dict(SLIM, BinP='{"m"}', CopyP='{"m"}'), export="mixed"),
+                       "state space MaxRegs=2 MaxLen=4, creations + mixed operations with warm/cold lru memos, cover of the states reached by a mixed operation"))
+        ck.cov["bound"] = [{"MaxRegs": 2, "MaxLen": 3, "alphabet": "slim", "mixed": False, "routes_visible": True}, {"MaxRegs": 2, "MaxLen": 3, "alphabet": "full", "mixed": True, "routes_visible": False}, {"MaxRegs": 2, "MaxLen": 4, "alphabet": "creations + mixed operations on m, warm/cold", "routes_visible": False}]
+    # (2) beyond the bound: TLC's simulator, 3 custom registries, lru memos warm or cold
+    simspecs = [
+        ("hist", "FALSE", "TRUE", FULL, ck.q(20, 300), ck.q(6, 8)),
+        ("mixed", "TRUE", "TRUE", FULL, ck.q(20, 400), ck.q(5, 7)),
+        ("lru", "TRUE", "FALSE", LRU, ck.q(30, 200), ck.q(5, 6)),
+    ]
+
+    def gen_cover(job):
+        tag, kw, label = job
+        _write_cfg(ck, "MC_C13_" + tag.replace("-", "_"), **kw)
+        return ck.tlc("MC_C13", "MC_C13_" + tag.replace("-", "_"), workers=1, label=label, required_actions=["Next"], timeout=3000)
+
+    def gen_sim(job):
+        tag, mixed, editing, alphabet, n_sim, depth = job
+        _write_cfg(ck, f"MC_C13_sim_{tag}", MaxRegs=3, MaxLen=depth + 5, ExportLen=depth, Mixed=mixed, Editing=editing, Namespaces=editing, WarmSet="{FALSE, TRUE}", export="hist", alphabet=alphabet)
+        return ck.tlc("MC_C13", f"MC_C13_sim_{tag}", workers=1, simulate=n_sim, depth=depth + 1, label=f"simulation {tag} depth={depth} MaxRegs=3", timeout=1800)
+
+    # the generating TLC runs are independent (each single-threaded because it exports): run them side by side
+    with ThreadPoolExecutor(max(1, min(NCPU, len(covers) + len(simspecs)))) as ex:
+        fc = [ex.submit(gen_cover, j) for j in covers]
+        fs = [ex.submit(gen_sim, j) for j in simspecs]
+        rc = [f.result() for f in fc]
+        rs = [f.result() for f in fs]
+    n = sum(take(res, job[0]) for job, res in zip(covers, rc))
     if n < 1000:
         raise MachineryFailure("too few histories exported")
     ck.cov["exhaustive"] = True
-    ck.sample({"history": cases[len(cases) // 2]["h"]})
-    traces = ck.pmap("impl_c13", "observe", cases, common=common, chunk_timeout=3000)
-    _validate(ck, traces, "cover", stats)
     n_cover = len(cases)
-
-    # (2) beyond the bound: TLC's simulator, 3 custom registries, lru memos warm or cold
     rnd = random.Random(ck.seed)
     sims_all = []
-    LRU = dict(FULL, BinP='{"m"}', BinF='{"mul", "add"}', CopyP='{"m"}')
-    for tag, mixed, editing, alphabet, n_sim, depth in (
-        ("hist", "FALSE", "TRUE", FULL, ck.q(30, 300), ck.q(6, 8)),
-        ("mixed", "TRUE", "TRUE", FULL, ck.q(30, 400), ck.q(5, 7)),
-        ("lru", "TRUE", "FALSE", LRU, ck.q(30, 200), ck.q(5, 6)),
-    ):
-        _write_cfg(ck, f"MC_C13_sim_{tag}", MaxRegs=3, MaxLen=depth + 5, ExportLen=depth, Mixed=mixed, Editing=editing, Namespaces=editing, WarmSet="{FALSE, TRUE}", export="hist", alphabet=alphabet)
-        res = ck.tlc("MC_C13", f"MC_C13_sim_{tag}", workers=1, simulate=n_sim, depth=depth + 1, label=f"simulation {tag} depth={depth} MaxRegs=3", timeout=1800)
+    for res in rs:
         sims = [{"h": r["h"]} for r in res.by_tag("HIST")]
         fam = {}
         for c in sims:
             fam.setdefault(json.dumps(c["h"][:-1], sort_keys=True), []).append(c)
         sims_all += [c for k in sorted(fam) for c in rnd.sample(fam[k], min(ck.q(5, 6), len(fam[k])))]
+    ck.sample({"history": cases[len(cases) // 2]["h"]})
     if sims_all:
         ck.sample({"simulated_history": sims_all[0]["h"]})
-        traces = ck.pmap("impl_c13", "observe", sims_all, common=common, chunk_timeout=3000)
-        _validate(ck, traces, "sim", stats)
+    # (3) replay everything, (4) TLC trace validation
+    traces = ck.pmap("impl_c13", "observe", cases + sims_all, common=common, chunk_timeout=3000)
+    _validate(ck, traces[:n_cover], "cover", stats)
+    _validate(ck, traces[n_cover:], "sim", stats)
     ck.cov["simulated_histories"] = len(sims_all)
 
     allc = cases + sims_all
